@@ -367,6 +367,7 @@ func runCeremony(r *vfw.Run, forC16 bool) {
 	epochsDone := 0
 	validationsNotFailed := 0
 	lotteryChecked := false
+	var heldBy *simnode.Node
 	prevPeriod := state.NonePeriod
 	up := func() []*simnode.Node {
 		var u []*simnode.Node
@@ -424,7 +425,14 @@ func runCeremony(r *vfw.Run, forC16 bool) {
 			el := s.Eligible(live)
 			if len(el) > 0 {
 				alt := el[r.Choose("cer.altproposer", len(el))]
-				// its mempool differs: a few more transactions reach it first
+				// its mempool differs: a few more transactions reach it first; a replica that still holds a ceremony
+				// transaction nobody else has seen (see 'held' below) is preferred
+				for _, n := range el {
+					if n == heldBy && n != rr.Proposer {
+						alt = n
+						r.Fault("competing_block_carries_a_ceremony_tx_nobody_else_has")
+					}
+				}
 				l.SubmitSome([]*simnode.Node{alt})
 				if prop, pv, _ := s.Propose(alt); pv == nil && prop != nil && prop.Block.Hash() != rr.Block.Hash() {
 					aenc, _ := prop.Block.ToBytes()
@@ -437,6 +445,29 @@ func runCeremony(r *vfw.Run, forC16 bool) {
 					r.Fault("competing_block_at_finishing_height_validated_first")
 				}
 			}
+		}
+		// during the long session a ceremony transaction of an identity nobody operates reaches one replica only
+		if heldBy == nil && live[0].App.State.ValidationPeriod() == state.LongSessionPeriod && r.Choose("cer.heldtx", 3) == 0 {
+			if el := s.Eligible(live); len(el) > 1 {
+				z := el[r.Choose("cer.heldby", len(el))]
+				for _, id := range s.Ids {
+					operated := false
+					for _, n := range nodes {
+						operated = operated || n.Addr == id.Addr
+					}
+					if operated {
+						continue
+					}
+					if tx := s.LongAnswersTx(z, id); tx != nil && s.Submit(z, tx) == nil {
+						heldBy = z
+						r.Fault("ceremony_tx_reaches_one_replica_only")
+						break
+					}
+				}
+			}
+		}
+		if live[0].App.State.ValidationPeriod() == state.NonePeriod {
+			heldBy = nil
 		}
 		cert := l.BuildCert(live[0], rr)
 		certs[rr.Height] = cert
